@@ -330,8 +330,21 @@ def notation(rng, z, allow_deg=False):
     return {"abs": a, "phase": ph}
 
 
-def gen_net_description(rng, degenerate=False):
-    """list of dict entries over all twelve kinds of the network loader table"""
+WIDE = [1e-15, 1e-13, 1e-12, 1e-9, 1e-6, 1e-3, 1e3, 1e6, 1e12]
+
+
+def gen_net_description(rng, degenerate=False, wide=False):
+    """list of dict entries over all twelve kinds of the network loader table; `wide`: complex values over thirty
+    decades (pS admittances, TOhm impedances), not only around 1"""
+    if wide:
+        _cx = cx
+        cx_ = lambda r: _cx(r) * r.choice(WIDE)
+    else:
+        cx_ = cx
+    return _gen_net_description(rng, degenerate, cx_)
+
+
+def _gen_net_description(rng, degenerate, cx):
     kinds = ["resistor", "conductor", "impedance", "admittance", "linear_current_source", "current_source",
              "real_current_source", "linear_voltage_source", "voltage_source", "real_voltage_source",
              "short_circuit", "open_circuit"]
